@@ -24,7 +24,7 @@ func init() {
 			"At the end the same history is re-executed WITHOUT scribbling and every tensor and every final gradient must be bit-identical. A component scenario (NewFC with initializers that scribble the shape they were given, Weights() slice scribbled, variadic Forward inputs scribbled, loss, BackPropagate, SGD.Update through pointers) is monitored the same way. " +
 			"Non-trivial: the history passes >= 1 slice argument and back-propagates after scribbling; distinct = multiset of (operation kinds with slice arguments) x number of back-propagations x length class.",
 		Assumptions: []string{"what a step may legitimately change is taken from the C08 state machine (only BackPropagate assigns gradients and spends, only ResetGradContext changes tracking)"},
-		FloorQuick:  1200, FloorThor: 15000,
+		FloorQuick:  3000, FloorThor: 50000,
 		Run: runC10,
 	})
 }
@@ -421,7 +421,7 @@ func c10Run(k *fw.K, actions []c08action, scribble bool) (h *c08hist, ex *c10exe
 }
 
 func runC10(c *fw.Ctx) {
-	for i := 0; i < c.Pick(2000, 30000); i++ {
+	for i := 0; i < c.Pick(6000, 150000); i++ {
 		c.Case(func(k *fw.K) {
 			h, ex, ok := c10Run(k, nil, true)
 			k.Case = map[string]any{"history": h.actions}
@@ -479,7 +479,7 @@ func runC10(c *fw.Ctx) {
 			k.Count("twin_histories", 1)
 		})
 	}
-	for i := 0; i < c.Pick(300, 5000); i++ {
+	for i := 0; i < c.Pick(1000, 20000); i++ {
 		c.Case(func(k *fw.K) { c10Components(k) })
 	}
 }
